@@ -7,7 +7,7 @@ from ..describe import describe
 from ..engines.schemas import resolve_iter, index_iter_base, range_parts, closure_return_term, item_source, end_char
 from .. import lemmas
 from .common import configs_for, has_feature
-from .util import Rule, guarded, site_of_block
+from .util import Rule, guarded, site_of_block, check_visits_all
 from . import models
 from .C10 import skip_fact, same_iterator
 from .C11 import chain_closure, find_index_terms
@@ -236,6 +236,7 @@ def _split_points(prog, rep):
                 return (atom[1], False)
         return None
     n_push = 0
+    check_visits_all(r, body, lm, "the hyphen scan over word.match_indices('-')")
     for tr in loop_system(prog, body, lm, [], [acc]):
         if tr.kind != "back":
             continue
@@ -407,6 +408,7 @@ def _break_words(prog, rep):
             "break_words iterates %s" % (D(src) if src else "?"))
     w = lm.item
     cases = set()
+    check_visits_all(r, body, lm, "break_words' loop over the words")
     for tr in loop_system(prog, body, lm, [], [acc]):
         if tr.kind != "back":
             continue
@@ -435,6 +437,19 @@ def run(prog, rep):
     guarded(rep, "C12.R4", SPTS, lambda: _split_points(prog, rep))
     guarded(rep, "C12.R5", BA, lambda: _break_apart(prog, rep))
     guarded(rep, "C12.R9", BW, lambda: _break_words(prog, rep))
+    if not _IN_LEMMA[0]:
+        # the cached width of a piece (display_width of its text, R3) and the widths break_apart accumulates
+        # (ch_width per char, R6/R7) agree only if display_width is the sum of ch_width outside escapes: C10
+        lemmas.load_all()
+        st = lemmas.status(prog, "C10")
+        if st == "ok":
+            rep.ok("C12.R10", "crate", "lemma C10 holds in this run", "evaluated: ok", nontrivial=False)
+        else:
+            rep.violation("C12.R10", "crate", "lemma:C10", "crate", "lemma C10 is %s in this run: display_width is not the sum of "
+                          "ch_width over the visible chars, so cached widths and force-broken pieces disagree" % st)
+
+
+_IN_LEMMA = [False]
 
 
 def _mk(rule):
@@ -442,7 +457,11 @@ def _mk(rule):
         from ..engine import Report
         rep = Report("C12")
         rep.set_config(prog.config)
-        run(prog, rep)
+        _IN_LEMMA[0] = True
+        try:
+            run(prog, rep)
+        finally:
+            _IN_LEMMA[0] = False
         return not any(v.rule == rule for v in rep.violations)
     return f
 
